@@ -4,6 +4,10 @@ from facts import sym_arg
 from props.common import arg_syms, bool_switches, callee_method_name, calls_to, crate_stats, gates, in_cycle, need, nonforeign_calls, one_method
 from props.c07 import flat_phi, metric_lines
 
+KEEP = [  # private helpers the rules name (kept as functions); every other non-exported, non-trait function is spliced into its callers
+    "Inner::render", "Inner::write_family_header", "formatting::sanitize_label_value_or_description", "formatting::valid_label_key_character",
+    "formatting::valid_label_key_start_character", "formatting::valid_metric_name_character", "formatting::valid_metric_name_start_character",
+]
 TITLE = "C08 Prometheus output is well-formed exposition text for any input strings."
 CONFIGS = ["test-profile", "prom-nodefault"]
 FMT = "metrics_exporter_prometheus::formatting"
